@@ -625,3 +625,47 @@ _extend("C20", [("""Not proved: the
          ("C20_boundary_check_sound", "LexLayout", "boundary_check_sound", ""),
          ("C20_lexer_fuel_irrelevant", "LexFuel", "lex_run_stable", ""),
          ("C20_lexer_position_irrelevant", "LexShift", "lex_run_shU", "")])
+
+# ---- Limits.v: the two VM limits characterised on the tree ----
+_LIM = "From BCL Require Import Proofs.VerifyFrag Proofs.CompileVerifies Proofs.Limits."
+_extend("C01", [("""(or stops at one of the two implementation limits).""", """(or stops at one of the two implementation limits).  The limits are
+   characterised on the tree (Proofs/Limits.v): `need_prog p` is the number of operand slots the program needs (live
+   variables plus the temporaries of its deepest expression, computed structurally), `nest_prog p` its block nesting;
+   within 1024 slots and 16 blocks the agreement is EXACT (C01_language_within_limits, no escape clause), and a limit
+   error can only occur when the tree exceeds that limit (C01_language_characterised).""")],
+        _LIM,
+        [("C01_language_within_limits", "Limits", "bcl_language_within_limits", ""),
+         ("C01_language_characterised", "Limits", "bcl_language_characterised", ""),
+         ("C01_tree_exact_within_limits", "Limits", "T1_exact_within_limits", "")])
+_extend("C02", [], _LIM,
+        [("C02_language_within_limits", "Limits", "bcl_language_within_limits", "exact agreement (no limit escape) for programs within 1024 slots and 16 nested blocks"),
+         ("C02_tree_semantics_within_limits", "Limits", "T1_program_iff_within_limits", "")])
+_extend("C03", [], _LIM, [("C03_language_within_limits", "Limits", "bcl_language_within_limits", "")])
+_extend("C06", [], _LIM,
+        [("C06_limits_are_the_tree_limits", "Limits", "compiled_limit_error", "'stack overflow' / 'too many nested blocks' are reported only for programs whose tree needs more than 1024 slots / 16 nested blocks"),
+         ("C06_peak_of_compiled_code", "Limits", "parsed_peak", "the maximal depths over all paths of the compiled code are exactly the tree's needs")])
+_extend("C10", [], "From BCL Require Import Proofs.Limits.",
+        [("C10_compile_peak", "Limits", "compile_peak", "the verifier's labels of compiled code: maximal operand depth = need_prog, maximal block depth = nest_prog"),
+         ("C10_no_limit_below", "Limits", "no_limit_below", "")])
+
+# ---- Parens.v (redundant parentheses), LexMono.v (token positions non-decreasing) ----
+_extend("C20", [("""Not proved: parentheses around arbitrary sub-expressions (exercised by
+   the re-rendering oracle on every generated program).""", """Redundant parentheses (Proofs/Parens.v): every call of the expression
+   grammar consumes a complete expression (C20_paren_subexpr: wrapping exactly the tokens one call consumed in '(' ')'
+   gives the same tree at every level), doubled parentheses, parenthesised right-hand sides of var / print / eval /
+   assignment / expression statements, and for whole programs C20_paren_program: inserting one pair around a node of
+   the parse (the context relation `PT`, whose constructors walk from the root to the parenthesised call; that it is
+   exactly "insert a pair around a segment" is `PT_ins`) leaves the tree, hence (C20_parens_irrelevant) the compiled
+   code and constants unchanged.  Where parentheses are NOT redundant the trees differ (`ex_not_redundant`).  The
+   `PT` witness is a hypothesis; for concrete programs it is built by constructors and reflexivity.""")],
+        "From BCL Require Import Proofs.Parens.",
+        [("C20_paren_subexpr", "Parens", "paren_subexpr", ""),
+         ("C20_paren_subexpr_eq", "Parens", "paren_subexpr_eq", ""),
+         ("C20_paren_double", "Parens", "paren_double", ""),
+         ("C20_paren_stmt", "Parens", "paren_stmt_kw", ""),
+         ("C20_paren_program", "Parens", "paren_program", ""),
+         ("C20_parens_irrelevant", "Parens", "parens_irrelevant", ""),
+         ("C20_expression_is_complete", "Parens", "pexpr_complete", "")])
+APPEND["C08"] = (APPEND["C08"][0] + "\nFrom BCL Require Import Proofs.LexMono.",
+                 APPEND["C08"][1] + [("C08_token_positions_sorted", "LexMono", "lex_tpos_mono", "token end offsets are non-decreasing, error tokens included"),
+                                     ("C08_code_positions_sorted_all", "LexMono", "prog_positions_sorted_all", "hence the position table of every compiled program is sorted, unconditionally")])
